@@ -184,13 +184,104 @@ let obs_str (pj : proj) (o : obs) : string =
 let split_ws s = List.filter (fun x -> x <> "") (String.split_on_char ' ' s)
 
 type hist = {
-  hid : string; dbg : bool; ringcap : int; stackcap : int; qcap : int;
+  hid : string; dbg : bool; ringcap : int; stackcap : int; qcap : int; mutable wall0 : n;
   mutable acts : (action * obs * int * int * string) list; (* action, observed, tb, ta, raw line *)
 }
 
 (* oracles are registered by Oracle_glue (name, function over the history with the code's
    observations, returns the list of failing clause names) *)
 let oracles : (string * (sys -> (action * obs) list -> string list)) list ref = ref []
+
+
+(* ---- C18: times.  Pairs the model's records (logical ticks) with the code's records (unix
+   nanoseconds) of the same report and builds the inputs of the Gallina oracle P_C18. *)
+let time_checks (h : hist) : string list =
+  let acts = Array.of_list (List.rev h.acts) in
+  let nacts = Array.length acts in
+  let tb = Array.make (nacts + 2) 0 and ta = Array.make (nacts + 2) 0 in
+  let done_of = Array.make (nacts + 2) 0 in
+  let start_of : (int, int) Hashtbl.t = Hashtbl.create 8 in
+  Array.iteri (fun i (a, _, b, e, _) ->
+      let idx = i + 1 in
+      tb.(idx) <- b; ta.(idx) <- e; done_of.(idx) <- idx;
+      (match a with
+       | ACall (t, _) -> Hashtbl.replace start_of (int_of_n t) idx
+       | APush t -> (match Hashtbl.find_opt start_of (int_of_n t) with
+           | Some st when st > 0 -> done_of.(st) <- idx
+           | _ -> ())
+       | AExit t -> Hashtbl.replace start_of (int_of_n t) 0
+       | _ -> ())) acts;
+  let s0 = sys_init h.dbg (n_of_int h.ringcap) (n_of_int h.stackcap) (n_of_int h.qcap) in
+  let s = ref s0 in
+  let groups : (int, tpoint list ref) Hashtbl.t = Hashtbl.create 16 in
+  let durs = ref [] and walls = ref [] in
+  let stop = ref false in
+  let au = 17592186044416 in
+  let tick_of v = int_of_n v mod au and anchor_of v = int_of_n v / au in
+  let callidx t = let c = t / 1024 in if c >= 1 && c <= nacts then c else 0 in
+  let add_point v real =
+    let t = tick_of v in
+    let c = callidx t in
+    if c > 0 then begin
+      let p = { tp_tick = n_of_int t; tp_real = real; tp_call = n_of_int c; tp_done = n_of_int done_of.(c) } in
+      let g = (match Hashtbl.find_opt groups (anchor_of v) with Some g -> g | None -> let g = ref [] in Hashtbl.add groups (anchor_of v) g; g) in
+      g := p :: !g
+    end in
+  let pair_records (mrs : record list) (crs : record list) =
+    let key r = record_str RFull r in
+    let ms = List.sort (fun a b -> compare (key a) (key b)) mrs
+    and cs = List.sort (fun a b -> compare (key a) (key b)) crs in
+    if List.map key ms <> List.map key cs then None else Some (List.combine ms cs) in
+  Array.iter (fun (a, o, _, _, _) ->
+      if not !stop then begin
+        let (s', mo) = step !s a in
+        s := s';
+        let handle mrs crs =
+          (match pair_records mrs crs with
+           | None -> stop := true
+           | Some pairs ->
+             List.iter (fun (m, c) ->
+                 let bt = tick_of m.rc_begin in
+                 let bi = callidx bt in
+                 let mend = N.add m.rc_begin m.rc_dur in
+                 let ei = callidx (tick_of mend) in
+                 if bi > 0 then begin
+                   add_point m.rc_begin c.rc_begin;
+                   if ei > 0 then begin
+                     add_point mend (N.add c.rc_begin c.rc_dur);
+                     let lo = Stdlib.max 0 (tb.(ei) - ta.(done_of.(bi))) and hi = ta.(done_of.(ei)) - tb.(bi) in
+                     let lo' = Stdlib.max 0 (lo - 20000 - lo / 50) and hi' = hi + 20000 + hi / 50 in
+                     durs := { dc_dur = c.rc_dur; dc_lo = n_of_int lo'; dc_hi = n_of_int hi' } :: !durs
+                   end;
+                   let w0 = h.wall0 in
+                   if w0 <> N0 then
+                     walls := { wc_begin = c.rc_begin;
+                                wc_lo = N.sub (N.add w0 (n_of_int tb.(bi))) (n_of_int 50000000);
+                                wc_hi = N.add (N.add w0 (n_of_int ta.(done_of.(bi)))) (n_of_int 50000000) } :: !walls
+                 end;
+                 (try List.iter2 (fun me ce -> add_point me.e_ts ce.e_ts) m.rc_events c.rc_events
+                  with Invalid_argument _ -> stop := true)) pairs) in
+        (match mo, o with
+         | OReport (mrs, _, _), OReport (crs, _, _) -> handle mrs crs
+         | OCall (RRecords mrs), OCall (RRecords crs) -> handle mrs crs
+         | _ -> ())
+      end) acts;
+  let batches = ref (Hashtbl.fold (fun _ g acc -> !g :: acc) groups []) in
+  let fails = ref [] in
+  if not (List.for_all order_ok !batches) then begin
+    fails := "time-order" :: !fails;
+    if Sys.getenv_opt "VDEBUG" <> None then
+      List.iter (fun pts ->
+          List.iter (fun p -> List.iter (fun q ->
+              let bef = (p.tp_call = q.tp_call && N.leb p.tp_tick q.tp_tick) || N.ltb p.tp_done q.tp_call in
+              if bef && not (N.leb p.tp_real q.tp_real) then
+                Printf.printf "  ORDER p(tick=%d real=%s call=%d done=%d) q(tick=%d real=%s call=%d done=%d)\n"
+                  (int_of_n p.tp_tick) (hex_of_n p.tp_real) (int_of_n p.tp_call) (int_of_n p.tp_done)
+                  (int_of_n q.tp_tick) (hex_of_n q.tp_real) (int_of_n q.tp_call) (int_of_n q.tp_done)) pts) pts) !batches
+  end;
+  if not (dur_ok !durs) then fails := "duration-outside-execution-bracket" :: !fails;
+  if not (wall_ok !walls) then fails := "begin-outside-wall-clock-window" :: !fails;
+  !fails
 
 let run_history (h : hist) (props : string list) stats =
   let pj = proj_of (match props with p :: _ -> p | [] -> "") in
@@ -216,6 +307,8 @@ let run_history (h : hist) (props : string list) stats =
         let fails = (try f s0 ao with e -> ["oracle-exception:" ^ Printexc.to_string e]) in
         List.iter (fun cl -> Printf.printf "ORACLEFAIL %s %s %s\n" h.hid name cl) fails
       end) !oracles;
+  if props = ["C18"] then
+    List.iter (fun cl -> Printf.printf "ORACLEFAIL %s C18 %s\n" h.hid cl) (try time_checks h with e -> ["time-check-exception:" ^ Printexc.to_string e]);
   Hashtbl.replace stats "actions" ((try Hashtbl.find stats "actions" with Not_found -> 0) + List.length acts);
   !disagreed
 
@@ -234,7 +327,11 @@ let main file props =
            (match split_ws line with
             | [_; id; dbg; rc; sc; qc] ->
               cur := Some { hid = id; dbg = (dbg = "1"); ringcap = int_of_string rc; stackcap = int_of_string sc;
-                            qcap = int_of_string qc; acts = [] }
+                            qcap = int_of_string qc; wall0 = N0; acts = [] }
+            | _ -> ())
+         | 'W' ->
+           (match !cur, split_ws line with
+            | Some h, [_; w] -> h.wall0 <- n_of_dec w
             | _ -> ())
          | 'A' ->
            (match !cur with
